@@ -820,7 +820,17 @@ func hsInjectionsWereLate(w *World, sc *HsScenario, d *hsDialResult) bool {
 			// a genuine Version Negotiation packet the client has been delivered is a packet it has processed: any later
 			// Version Negotiation packet must be discarded (RFC 9000, section 6.2)
 			for _, rec := range w.Log[1] {
-				if len(rec.Pkts) == 1 && rec.Pkts[0].Type == TapVN && !rec.Damaged && len(rec.Delivered) > 0 && rec.Delivered[0] < at {
+				// (a Version Negotiation packet the server sent in answer to a damaged Initial echoes damaged connection IDs:
+				// the client drops it, it does not count)
+				var cInit *TapPacket
+				for _, c0 := range w.Log[0] {
+					if len(c0.Pkts) > 0 && c0.Pkts[0].Type == TapInitial {
+						cInit = c0.Pkts[0]
+						break
+					}
+				}
+				if len(rec.Pkts) == 1 && rec.Pkts[0].Type == TapVN && !rec.Damaged && len(rec.Delivered) > 0 && rec.Delivered[0] < at &&
+					cInit != nil && bytes.Equal(rec.Pkts[0].DCID, cInit.SCID) && bytes.Equal(rec.Pkts[0].SCID, cInit.DCID) {
 					acked = true
 					res0 := w.Res
 					res0.Probe("forged-vn-after-genuine-vn")
